@@ -13,7 +13,7 @@ Alphabets ==
   [sep  |-> << <<47>>, <<64>>, <<63>>, <<35>>, <<61>>, <<38>>, <<97>> >>,
    \*        /  @  t  T  .  %2e  %2F  %41  %C3%A9  %80  %  1  +
    path |-> << <<47>>, <<64>>, <<116>>, <<84>>, <<46>>, <<37,50,101>>, <<37,50,70>>, <<37,52,49>>,
-               <<37,67,51,37,65,57>>, <<37,56,48>>, <<37>>, <<49>>, <<43>>, <<233>> >>,
+               <<37,67,51,37,65,57>>, <<37,56,48>>, <<37>>, <<49>>, <<43>>, <<233>>, <<32>>, <<10>> >>,
    \*        &  =  k  K  v  %26  %3D  %80  #  ?  "checksum"  "a:0A"  ,
    qual |-> << <<38>>, <<61>>, <<107>>, <<75>>, <<118>>, <<37,50,54>>, <<37,51,68>>, <<37,56,48>>,
                <<35>>, <<63>>, <<99,104,101,99,107,115,117,109>>, <<97,58,48,65>>, <<44>> >>,
@@ -65,6 +65,11 @@ C08_TypedVsGeneric == OutT.ok => /\ OutG.ok
 C08_UnknownType == (OutG.ok /\ ~Lookup(OutG.v.type).ok) => (~OutT.ok /\ OutT.err = "UnsupportedType")
 
 JOut(jd) == IF jd.j = "acc" THEN [j |-> "acc", v |-> jd.v, str |-> jd.str] ELSE jd
+\* C16: a JSON value that is not a string is refused, whatever it contains (texts as code points):
+\* null true 0 1.5 [] {} ["pkg:t/n"] {"purl":"pkg:t/n"}
+NonStringJson == << <<110,117,108,108>>, <<116,114,117,101>>, <<48>>, <<49,46,53>>, <<91,93>>, <<123,125>>,
+                    <<91,34,112,107,103,58,116,47,110,34,93>>, <<123,34,112,117,114,108,34,58,34,112,107,103,58,116,47,110,34,125>> >>
+EmitNonString == w = <<>> => PrintT(<<"CASE", ToJson([k |-> "serde_ns", texts |-> NonStringJson, exp |-> [ok |-> FALSE]])>>)
 Emit == PrintT(<<"CASE", ToJson([k |-> "parse", s |-> Str,
                                   gj |-> JG, go |-> Outcome(OutG), tj |-> JT, to |-> Outcome(OutT)])>>)
 =============================================================================
